@@ -5,6 +5,7 @@ set -u
 patch="$1"; prop="$2"; tier="${3:-quick}"
 cd /repo || exit 2
 if ! git diff --quiet; then echo "repo dirty, refusing"; exit 2; fi
+cp /verif/known_findings.json /tmp/seedrun-verif/ 2>/dev/null
 git apply "$patch" || { echo "patch does not apply"; exit 2; }
 /verif/bin/hapverif check --property "$prop" --tier "$tier" --verif /tmp/seedrun-verif 2>&1 | grep -v "^  C[0-9][0-9]\." | head -${SEEDRUN_LINES:-12}
 rc=${PIPESTATUS[0]}
